@@ -91,8 +91,13 @@ def _provenance(chk, repo, ci, init):
         chk.add("C17-R1", inst, ok, site(repo, init), "likelihood = Gaussian(model(prior), noise_std**2).to_likelihood(data); passed with the prior",
                 "WangCubic wiring of model, data distribution, likelihood and prior changed", init)
         jac = [n for n in ast.walk(init) if isinstance(n, ast.FunctionDef) and n.name in ("forward", "jacobian")]
-        t = _norm(init)
-        ok = "return10*x[1]-10*x[0]**3+5*x[0]**2+6*x[0]" in t and "returnnp.array([[-30*x[0]**2+10*x[0]+6,10]])" in t
+        from .common import closed_outcomes, expected_text
+        want = {"forward": lambda x: f"10*{x}[1]-10*{x}[0]**3+5*{x}[0]**2+6*{x}[0]", "jacobian": lambda x: f"np.array([[-30*{x}[0]**2+10*{x}[0]+6,10]])"}
+        ok = len(jac) == 2
+        for d_ in jac:
+            x_ = func_params(d_)[0] if func_params(d_) else "x"
+            outs = closed_outcomes(repo, ci, d_)
+            ok = ok and outs == {("return", expected_text(want[d_.name](x_)))}
         chk.add("C17-R2", inst + "/cubic", ok, site(repo, init), "forward 10 x2 - 10 x1^3 + 5 x1^2 + 6 x1 with its Jacobian", "cubic model or its Jacobian changed", init)
         return
     # exact data = model applied to the exact solution
